@@ -70,8 +70,12 @@ def case(draw):
                     "where": draw(st.sampled_from(["own", "own", "foreign"]))}
         if not (existing["cop"] or existing["lic"]):
             existing = None
+    plain = template in (None, "prose", "nocontrib") and line is None and dot is None and not binary
     return {"name": name, "req": req, "style": style_opt, "line": line, "dot": dot, "template": template, "binary": binary,
-            "existing": existing, "body": draw(st.sampled_from(BODIES)), "no_replace": draw(st.integers(0, 5)) == 0}
+            "existing": existing, "body": draw(st.sampled_from(BODIES)), "no_replace": draw(st.integers(0, 5)) == 0,
+            # a commentable file that already has a FILE.license companion; reaching the file through -r DIR; a second file in the same invocation
+            "companion": draw(st.integers(0, 4)) == 0, "recursive": name.startswith("src/") and draw(st.integers(0, 2)) == 0,
+            "second": draw(st.sampled_from([None, None, "header", "plain"])) if plain else None}
 
 
 def check(ctx, c, table_walk=False):
@@ -81,7 +85,8 @@ def check(ctx, c, table_walk=False):
         ctx.excluded["table-key-is-not-a-covered-file-name"] += 1
         return
     fstyle = AN.style_of(base)  # python | ... | uncommentable | empty | None
-    to_dotlicense = c["binary"] or fstyle == "uncommentable" or c["dot"] == "force" or (fstyle is None and c["dot"] == "fallback" and not c["style"])
+    companion = bool(c.get("companion")) and not c["binary"]
+    to_dotlicense = c["binary"] or fstyle == "uncommentable" or c["dot"] == "force" or (fstyle is None and c["dot"] == "fallback" and not c["style"]) or companion
     used_style = c["style"] or (fstyle if fstyle in S.STYLES else None)
     req = c["req"]
     existing = c["existing"]
@@ -108,6 +113,13 @@ def check(ctx, c, table_walk=False):
         files = {name: content}
         if existing and to_dotlicense:
             files[name + ".license"] = P.header_text("none", existing["cop"], existing["lic"], existing["con"], body="")
+        elif companion:
+            files[name + ".license"] = "Notes about this file.\n"
+        second = c.get("second")
+        sname = ("src/" if name.startswith("src/") else "") + "second_file.py"
+        second_existing = {"cop": {"SPDX-FileCopyrightText: 2011 Second Holder"}, "lic": {"ISC"}} if second == "header" else {"cop": set(), "lic": set()}
+        if second:
+            files[sname] = P.header_text("python", sorted(second_existing["cop"]), sorted(second_existing["lic"])) if second == "header" else "print('second')\n"
         tree.write_tree(root, files)
         before_snap = AN.snapshot(root)
         # ---- command line
@@ -129,10 +141,31 @@ def check(ctx, c, table_walk=False):
             args += ["--template", tname]
         if c["no_replace"]:
             args.append("--no-replace")
-        args.append(name)
+        recursive = bool(c.get("recursive")) and name.startswith("src/")
+        if recursive:
+            args += ["-r", "src"]
+            if second and not sname.startswith("src/"):
+                args.append(sname)
+        else:
+            # the file that already has a header comes first: what it declares must not leak into the next one
+            args += ([sname, name] if second else [name])
         res = cli.run(args, root)
-        success = res.crash is None and res.code == 0 and "Successfully changed header of" in res.out
-        labels = [f"filestyle:{fstyle}", f"forced-style:{bool(c['style'])}", f"line:{c['line']}", f"dot:{c['dot']}", f"template:{c['template'] if tname else None}",
+        def changed(path):
+            # the message names the path as given, or absolute when the file was reached through -r
+            pre = "Successfully changed header of "
+            return any(ln.startswith(pre) and (ln[len(pre):] in (path, path + ".license") or ln[len(pre):].endswith(("/" + path, "/" + path + ".license")))
+                       for ln in res.out.splitlines())
+
+        success = res.crash is None and res.code == 0 and changed(name)
+        if second and res.crash is None and res.code == 0:
+            s_cop, s_lic, _s_con, _r = AN.read_back(root, sname)
+            want_s_cop = set(second_existing["cop"]) | AN.requested_notices(req)
+            want_s_lic = {AN.norm_expr(x) for x in second_existing["lic"]} | {AN.norm_expr(x) for x in req["licences"]}
+            if c["style"] and c["style"] != "python" and second == "header":
+                pass  # forced foreign style: still a union, checked below the same way
+            if s_cop is not None and changed(sname) and (s_cop != want_s_cop or s_lic != want_s_lic):
+                ctx.fail(c, f"second file of the invocation ({sname}): lint reads copyrights={sorted(s_cop)} licences={sorted(map(str, s_lic))}; expected {sorted(want_s_cop)} / {sorted(map(str, want_s_lic))}")
+        labels = [f"filestyle:{fstyle}", f"forced-style:{bool(c['style'])}", f"companion:{companion}", f"recursive:{recursive}", f"second:{second}", f"line:{c['line']}", f"dot:{c['dot']}", f"template:{c['template'] if tname else None}",
                   f"binary:{c['binary']}", f"existing:{existing['where'] if existing else None}", f"exit:{res.code}", f"success:{success}",
                   f"prefix:{req['prefix']}", f"years:{len(req['years'])}{'x' if req['exclude_year'] else ''}"]
         nontrivial = success and not (used_style == "python" and not any([c["style"], c["line"], c["dot"], tname, req["prefix"], existing, c["binary"]]))
